@@ -45,6 +45,7 @@ package main
 import (
 	"fmt"
 	"go/ast"
+	"go/build"
 	"go/build/constraint"
 	"go/importer"
 	"go/parser"
@@ -378,6 +379,17 @@ func (s *scanner) classify(id *ast.Ident, row *varRow, stack []ast.Node) {
 	}
 }
 
+// matchFile: is this file part of the package as the go tool builds it here (GOOS, GOARCH,
+// release tags, file name suffixes, //go:build and +build lines; no extra tags, so files
+// guarded by the `verif` tag are left out)?  go/build decides, the same way `go build` does.
+func matchFile(path string) bool {
+	ok, err := build.Default.MatchFile(filepath.Dir(path), filepath.Base(path))
+	if err != nil {
+		die("%s: %v", path, err)
+	}
+	return ok
+}
+
 func main() {
 	if len(os.Args) < 2 {
 		die("usage: globals2coq <repo>")
@@ -402,7 +414,7 @@ func main() {
 		if f.Name.Name != "jen" {
 			die("%s: package %s, expected jen", n, f.Name.Name)
 		}
-		if buildTagOK(f) {
+		if matchFile(n) {
 			files = append(files, f)
 			scanned = append(scanned, filepath.Base(n))
 		} else {
